@@ -114,7 +114,7 @@ func isLiteralAtom(a string) bool {
 }
 
 var boolOps = map[string]bool{"and": true, "or": true, "not": true, "=>": true, "=": true, "<": true, "<=": true, ">": true, ">=": true, "distinct": true,
-	"forall": true, "exists": true, "validAddr": true, "validDenom": true, "isEscrow": true, "dense1": true}
+	"forall": true, "exists": true, "validAddr": true, "validDenom": true, "isEscrow": true, "dense1": true, "dense0": true}
 var intOps = map[string]bool{"+": true, "-": true, "*": true, "div": true, "mod": true, "tdiv": true, "trem": true, "min2": true, "max2": true, "absI": true,
 	"ceilDiv": true, "chopTrunc": true, "chopRound": true, "chopRoundP": true, "decMul": true, "decMulTrunc": true, "decQuo": true, "decQuoTrunc": true,
 	"decCeil": true, "decTruncInt": true, "addDays": true, "DecParse": true, "listN": true, "listPos": true, "ilistN": true, "ilistKey": true, "ilistPos": true,
